@@ -264,6 +264,8 @@ func (r *Run) Report(caseID string, f Fail) {
 	r.fails = append(r.fails, f)
 }
 
+func (r *Run) Evaluations() int64 { r.mu.Lock(); defer r.mu.Unlock(); return r.evaluations }
+
 func (r *Run) Violations() int { r.mu.Lock(); defer r.mu.Unlock(); return len(r.fails) }
 
 // Engine reports an engine / harness error: exit 2, never confused with a verdict.
